@@ -676,7 +676,16 @@ class Script:
         if o == 'pool_run':
             def f():
                 try:
-                    r = p.run(iter(list(op['inputs'])), worker_extra_pending_inputs=op.get('extra', 0))
+                    cb = None
+                    if op.get('close_in_callback'):
+                        # the user's callback asks the pool to close in the middle of the run: refused (RuntimeError), handled there
+                        def cb(worker, what, *a):
+                            if what == 'finished':
+                                try:
+                                    p.close()
+                                except RuntimeError:
+                                    pass
+                    r = p.run(iter(list(op['inputs'])), worker_extra_pending_inputs=op.get('extra', 0), worker_callback=cb)
                     return ['ret', sorted(r, key=repr) if r is not None else None]
                 except PoolError as e:
                     return ['PoolError', sorted(e.partial_results or [], key=repr)]
